@@ -607,7 +607,108 @@ func (x *vLifeRun) request(f func()) bool {
 	}
 }
 
+// vRunLifeServer: start/stop histories through the RPC layer's own bookkeeping (which source is the active one, whether one is
+// active). An in-package SourceControl wired as RunRPCServer wires it; sources Triangle and SimPulse. While one runs, Starts of the
+// other source, of the same source and of a name that does not exist must be refused and must not change which source a later Stop
+// stops: after Stop the source that was running is Inactive, its core loop is gone, and it can be started again.
+func vRunLifeServer(c *vCase) {
+	viper.Reset()
+	r := c.R
+	verifInstall(nil)
+	sc, stopHB := vNewInPackageControl()
+	defer close(stopHB)
+	var okay bool
+	var str string
+	names := []string{"TRIANGLESOURCE", "SIMPULSESOURCE"}
+	objs := []*AnySource{&sc.triangle.AnySource, &sc.simPulses.AnySource}
+	hist := []string{}
+	fail := func(sig, f string, a ...any) {
+		c.Violate(sig, "%s\nhistory: %v", fmt.Sprintf(f, a...), hist)
+	}
+	call := func(what string, f func() error) (error, bool) {
+		var err error
+		hist = append(hist, what)
+		if !vWatched(c, "request "+strings.SplitN(what, "(", 2)[0], 15*time.Second, func() { err = f() }) {
+			return nil, false
+		}
+		return err, true
+	}
+	configure := func(which int) bool {
+		var err error
+		if which == 0 {
+			err = sc.ConfigureTriangleSource(&TriangleSourceConfig{Nchan: 2 + r.Intn(3), SampleRate: 200000, Min: 100, Max: 400}, &okay)
+		} else {
+			err = sc.ConfigureSimPulseSource(&SimPulseSourceConfig{Nchan: 2 + r.Intn(3), SampleRate: 200000, Pedestal: 100, Amplitudes: []float64{1000}, Nsamp: 500}, &okay)
+		}
+		if err != nil {
+			c.Inconclusive("setup", "configuring source %d: %v", which, err)
+			return false
+		}
+		return true
+	}
+	c.Describe("source=server scenario=refused-starts seed=%d idx=%d", c.Seed, c.Idx)
+	for cyc := 0; cyc < 2+r.Intn(2); cyc++ {
+		a := r.Intn(2)
+		b := 1 - a
+		if !configure(a) || !configure(b) {
+			return
+		}
+		na := names[a]
+		err, ret := call("Start("+na+")", func() error { return sc.Start(&na, &okay) })
+		if !ret {
+			return
+		}
+		if err != nil {
+			fail("c10:start-refused-when-inactive", "Start(%s) with no source running was refused: %v", na, err)
+			return
+		}
+		c.Cov("starts_delivering_blocks", 1)
+		for i := 0; i < 1+r.Intn(3); i++ {
+			time.Sleep(time.Duration(2+r.Intn(10)) * time.Millisecond)
+			nm := vPick(r, names[b], names[b], na, "NOSUCHSOURCE")
+			err, ret := call("Start("+nm+") while "+na+" runs", func() error { return sc.Start(&nm, &okay) })
+			if !ret {
+				return
+			}
+			if err == nil {
+				fail("c10:second-start-accepted", "Start(%s) while %s was running was accepted", nm, na)
+				return
+			}
+			c.Cov("server_starts_refused_while_running", 1)
+		}
+		if st := objs[a].GetState(); st != Active {
+			fail("c10:not-active-after-start", "%s was started and not stopped, but its state is %v", na, st)
+			return
+		}
+		err, ret = call("Stop()", func() error { return sc.Stop(&str, &okay) })
+		if !ret {
+			return
+		}
+		if err != nil {
+			fail("c10:stop-refused-while-running", "Stop while %s was running was refused: %v", na, err)
+			return
+		}
+		c.Cov("stops_returned", 1)
+		if st := objs[a].GetState(); st != Inactive {
+			fail("c10:not-inactive-after-stop", "Stop has returned but %s, the source that was running, is in state %v (the other source: %v)", na, st, objs[b].GetState())
+			go objs[a].Stop()
+			return
+		}
+		if leaks := vCensusLeaks([]string{"dastard.CoreLoop"}); len(leaks) > 0 {
+			fail("c10:goroutine-leak@"+vTopRepoFrame(leaks[0]), "Stop has returned but %d core loop(s) are still there 4.5 s later\n%s", len(leaks), vTrim(leaks[0], 1500))
+			return
+		}
+		c.Cov("after_stop_checks", 1)
+		c.Cov("server_histories", 1)
+	}
+	c.Nontrivial()
+}
+
 func vRunLife(c *vCase) {
+	if c.Idx%20 == 19 {
+		vRunLifeServer(c)
+		return
+	}
 	viper.Reset()
 	r := c.R
 	kinds := []string{"triangle", "simpulse", "selfend", "selfend", "erroring", "abaco-scripted", "abaco-udp", "lancero-card", "roach-udp", "selfend"}
@@ -939,11 +1040,11 @@ func init() {
 		Setup: vLifeSetup,
 		Run:   vRunLife,
 		Meta: vMeta{Level: "exploration",
-			Rule: "case = (source, scenario, ordering constraint): Triangle, SimPulse, ErroringSource, a self-ending source (error block / closed channel), Abaco with scripted producers and over loopback UDP, Lancero with a scripted card, Roach over loopback UDP; scenarios: 2-5 start/stop cycles on one object (with writing in some), 2-4 concurrent Stop callers, Start while active, 1-2 failed Starts (hardware silent, card refusing in sampling or in StartRun) followed by a Start with data flowing, Stop racing or following self-termination (with and without writing active), a request pending while stopping; each ends with a restart of the same object. A verifPoint handler holds one goroutine at point A until point B has been passed (bounded, with fall-through) for pairs from {core.exit.err, core.exit.closed, deactivate.enter} x {stop.enter, stop.signalled, stop.waited} in both directions. Checked: refused second Start, Active + blocks after Start, every Stop returns (wait-state analysis), then Inactive, goroutine census clean, writing inactive, no file open below the output directory, restart delivers blocks; after a failed Start: Inactive, census clean, later Start succeeds; non-trivial = history completed; additions: Stop while the core loop is held busy, Start while a Stop is under way, runs paused at the end, restarts with other channel counts, sources ending themselves on a time-out (Roach 2 s keep-alive; Abaco over UDP with the program's own periods)",
+			Rule: "case = (source, scenario, ordering constraint): Triangle, SimPulse, ErroringSource, a self-ending source (error block / closed channel), Abaco with scripted producers and over loopback UDP, Lancero with a scripted card, Roach over loopback UDP; scenarios: 2-5 start/stop cycles on one object (with writing in some), 2-4 concurrent Stop callers, Start while active, 1-2 failed Starts (hardware silent, card refusing in sampling or in StartRun) followed by a Start with data flowing, Stop racing or following self-termination (with and without writing active), a request pending while stopping; each ends with a restart of the same object. A verifPoint handler holds one goroutine at point A until point B has been passed (bounded, with fall-through) for pairs from {core.exit.err, core.exit.closed, deactivate.enter} x {stop.enter, stop.signalled, stop.waited} in both directions. Checked: refused second Start, Active + blocks after Start, every Stop returns (wait-state analysis), then Inactive, goroutine census clean, writing inactive, no file open below the output directory, restart delivers blocks; after a failed Start: Inactive, census clean, later Start succeeds; non-trivial = history completed; additions: Stop while the core loop is held busy, Start while a Stop is under way, runs paused at the end, restarts with other channel counts, sources ending themselves on a time-out (Roach 2 s keep-alive; Abaco over UDP with the program's own periods); one case in 20 is a history through the RPC layer's bookkeeping (in-package SourceControl, Triangle and SimPulse): while one source runs, Starts of the other, of the same and of an unknown source must be refused, and the following Stop must leave the source that was running Inactive with its core loop gone",
 			Assumptions: []string{"Stop during Start at the DataSource level is not generated (the RPC layer cannot produce it and the code documents it as unsupported)", "a worker goroutine counts as leaked if it is still there with the same frames 3 s and again 4.5 s after the last Stop returned",
 				"sources whose Stop path discards their devices (Abaco, Roach) are configured again before every Start, as the RPC clients do"},
 			Guards: map[string]map[string]int{
-				"quick":    {"starts_delivering_blocks": 150, "stops_returned": 200, "after_stop_checks": 150, "concurrent_stop_groups": 15, "failed_starts": 8, "start_after_failed_start": 6, "stops_racing_self_termination": 8, "stops_after_self_termination": 8, "writing_started": 15, "final_restarts": 70, "device_release_checks": 30, "distinct:ordering": 10},
+				"quick":    {"starts_delivering_blocks": 150, "stops_returned": 200, "after_stop_checks": 150, "concurrent_stop_groups": 15, "failed_starts": 8, "start_after_failed_start": 6, "stops_racing_self_termination": 8, "stops_after_self_termination": 8, "writing_started": 15, "final_restarts": 70, "device_release_checks": 30, "distinct:ordering": 10, "server_histories": 8, "server_starts_refused_while_running": 8},
 				"thorough": {"starts_delivering_blocks": 1500, "failed_starts": 150, "distinct:ordering": 20},
 			}},
 	})
